@@ -57,6 +57,7 @@ func runFollower(t *rapid.T, focus string) {
 	ackSet := map[int64]bool{}
 	advertised := int64(-1)
 	labelOther := false
+	staleSnap := false
 	tagN := 0
 	unsyncedAtFence, redelivered, truncated, diverged := false, false, false, false
 
@@ -272,6 +273,38 @@ func runFollower(t *rapid.T, focus string) {
 			}
 			time.Sleep(time.Duration(rapid.IntRange(0, 3).Draw(t, "afterSendMs")) * time.Millisecond)
 		},
+		"staleSnapshot": func(t *rapid.T) {
+			// a deposed leader that still believes it leads opens a snapshot stream in its old term: the fenced /
+			// following node must refuse it, and nothing it holds may change
+			if term < 1 {
+				t.Skip("no older term")
+			}
+			if stream != nil {
+				stream.s.breakStream(errUnavailable)
+				stream = nil
+				time.Sleep(2 * time.Millisecond)
+			}
+			old := rapid.Int64Range(0, term-1).Draw(t, "olderTerm")
+			before, okBefore := f.walEntries()
+			commitBefore := dbCommitOffset(f.kvF.Last())
+			sc, err := lrpc.SendSnapshot(context.Background(), "f", nsName, shardID, old)
+			logf("staleSnapshot(term %d)", old)
+			if err == nil {
+				_ = sc.Send(&proto.SnapshotChunk{Term: old, Name: "MANIFEST-000001", ChunkIndex: 0, ChunkCount: 1, Content: []byte("stale")})
+				if _, rerr := sc.CloseAndRecv(); rerr == nil {
+					c.wire.violation("%s: the node (term %d) accepted a snapshot from a leader of term %d", focus, term, old)
+				}
+			}
+			after, okAfter := f.walEntries()
+			if okBefore && okAfter && len(after) < len(before) {
+				c.wire.violation("%s: a snapshot stream of the older term %d (the node is in term %d) was refused, but the node's log went from %d entries to %d", focus, old, term, len(before), len(after))
+			}
+			if ca := dbCommitOffset(f.kvF.Last()); ca < commitBefore {
+				c.wire.violation("%s: a snapshot stream of the older term %d (the node is in term %d) was refused, but the node's database went from commit offset %d to %d", focus, old, term, commitBefore, ca)
+			}
+			staleSnap = true
+			check("after a stale snapshot stream")
+		},
 		"reconnect": func(t *rapid.T) {
 			if term < 0 || term == refusedTerm {
 				t.Skip("no leader / follower refused in this term")
@@ -342,7 +375,7 @@ func runFollower(t *rapid.T, focus string) {
 	}
 	check("final log comparison")
 	var labels []string
-	for n, on := range map[string]bool{"unsynced_tail_at_newterm": unsyncedAtFence, "redelivery": redelivered, "truncate": truncated, "diverging_leader_log": diverged, "commit_ahead_of_this_follower": labelOther} {
+	for n, on := range map[string]bool{"unsynced_tail_at_newterm": unsyncedAtFence, "redelivery": redelivered, "truncate": truncated, "diverging_leader_log": diverged, "commit_ahead_of_this_follower": labelOther, "stale_term_snapshot_refused": staleSnap} {
 		if on {
 			labels = append(labels, n)
 		}
